@@ -14,6 +14,10 @@
 (*   "huf"     > 1024 literals, Huffman pays off    -> new table, or       *)
 (*             treeless when the previous table can encode them cheaply    *)
 (*   "nohuf"   > 1024 literals, Huffman does not pay off -> raw literals   *)
+(*   "hufraw"  > 1024 literals over nearly all byte values: a table IS     *)
+(*             built, but table + payload are not smaller than the         *)
+(*             literals -> raw literals, and the table must be forgotten   *)
+(*             (the decoder never sees it)                                 *)
 (* and independently the compressed form is either smaller than the block  *)
 (* (kept) or not (the block is emitted raw: "fallback").                   *)
 (*                                                                         *)
@@ -21,6 +25,8 @@
 (* shadow decoder's table `decHuf`, and the frame structure emitted so far.*)
 (* Dev_F5 = TRUE is the ordering before the repair of finding F5 (the      *)
 (* belief is updated before the raw fallback discards the block).          *)
+(* Dev_LitRaw = TRUE keeps the table of a "hufraw" block as the belief     *)
+(* (the same mistake one level down, in compress_literals).                *)
 (***************************************************************************)
 EXTENDS Naturals, Sequences, FiniteSets, TLC
 
@@ -28,7 +34,8 @@ CONSTANTS MaxFrames,    \* frames pushed through one reused compressor
           MaxBlocks,    \* full blocks per frame
           Levels,       \* subset of {"U", "F"}
           Frags,        \* read fragmentations of the source (only recorded in the program)
-          Dev_F5
+          Dev_F5,
+          Dev_LitRaw
 
 VARIABLES phase,      \* "idle" | "blocks" | "done"
           level,
@@ -42,7 +49,7 @@ VARIABLES phase,      \* "idle" | "blocks" | "done"
 vars == <<phase, level, frame, nfull, blocks, encHuf, decHuf, trailer>>
 
 B == 131072
-Classes == {"rle", "fewlits", "huf", "nohuf"}
+Classes == {"rle", "fewlits", "huf", "nohuf", "hufraw"}
 Tails == {"none", "short"}       \* input ends exactly at a block boundary | with a partial block
 
 Init == /\ phase = "idle" /\ level = "F" /\ frame = 0 /\ nfull = 0 /\ blocks = <<>>
@@ -73,6 +80,7 @@ RawBlock(last) ==
 LitChoices(cls) ==
     CASE cls = "fewlits" -> {<<"raw", encHuf>>}
       [] cls = "nohuf"   -> {<<"raw", encHuf>>}
+      [] cls = "hufraw"  -> {<<"raw", IF Dev_LitRaw THEN BlockNo ELSE encHuf>>}
       [] cls = "huf"     -> {<<"new", BlockNo>>} \cup (IF encHuf # 0 THEN {<<"treeless", encHuf>>} ELSE {})
       [] OTHER           -> {}
 
